@@ -396,6 +396,14 @@ func (ip *Interp) loadDyn(st *State, p *Ptr, t types.Type) Val {
 		key := fmt.Sprintf("mem%d(%s%s)[%s]%s", ip.storeEpoch, p.Obj.Name, PrettyPath(p.Obj.T, p.Path[:di]), idx.Lin.Key(), PrettyPath(et, p.Path[di+1:]))
 		return NewSym(w, ip.In.Atom(key, w, mask(w)), sg) // memory content: a base unknown of its own
 	}
+	if isStringType(t) {
+		// a string cell keeps the identity of where it was read from (what is rendered can be traced to it)
+		var et types.Type
+		if p.Obj.T != nil {
+			et = typeAtPath(p.Obj.T, p.Path[:di+1])
+		}
+		return &Str{Key: fmt.Sprintf("mem%d(%s%s)[%s]%s", ip.storeEpoch, p.Obj.Name, PrettyPath(p.Obj.T, p.Path[:di]), idx.Lin.Key(), PrettyPath(et, p.Path[di+1:]))}
+	}
 	return ip.topOf(t, "load["+idx.Lin.Key()+"]"+p.Obj.Name+PathKey(p.Path[:di]))
 }
 
